@@ -160,8 +160,9 @@ double Integrate_Gauss_Legendre(std::vector<double> function_values, std::vector
 // 1.3 1D integration with boost functions
 double Integrate(std::function<double(double)> func, double a, double b, const std::string& method, int method_parameter)
 {
-	double sign = 1.0;
-	if(a == b)
+	double sign		  = 1.0;
+	bool known_method = (method == "Trapezoidal" || method == "Gauss-Legendre" || method == "Gauss-Kronrod" || method == "Tanh-Sinh" || method == "Gauss-Legendre_2" || method == "Adaptive-Simpson");
+	if(a == b && known_method)
 		return 0.0;
 	else
 		Check_Integration_Limits(a, b, sign);
